@@ -708,7 +708,14 @@ def atom_forward(fn, classify, kill=None, limit=20000, symbolic=None, extra0=Non
                 and op in ('==', '!='):
             if not holds(d[l['l']['name']] & const_of(l['r']), op, c):
                 return None
-        nf = add_facts(facts, list(classify(r) or ()))
+        new = list(classify(r) or ())
+        # a local that snapshots a condition (`have = (x[0] != 0)`) tested later stands for that condition
+        if is_var(l) and l.get('sc') == 'local' and c == 0 and op in ('==', '!='):
+            sd = fn.single_def(l['name'])
+            if sd and isinstance(sd[1], dict) and (sd[1].get('k') == 'bin' and sd[1].get('op') in ('==', '!=', '<', '<=', '>', '>=') or (sd[1].get('k') == 'un' and sd[1].get('op') == '!')):
+                from .model import rel as _rel
+                new += list(classify(_rel(sd[1], op == '!=')) or ())
+        nf = add_facts(facts, new)
         if nf is None:
             return None
         return (nf, consts)
